@@ -514,8 +514,8 @@ Example C07_rank_decided_nonvacuous :
   ParseTreesRun.rank_verdict
     [Sx.L [Sx.I 0; Sx.L [Sx.I 1; Sx.I 2]; Sx.L []; Sx.L []]; Sx.L [Sx.I 3; Sx.I 0; Sx.I 7];
      Sx.L [Sx.I 1; Sx.L [Sx.I 3; Sx.I 0]; Sx.L [Sx.I 1; Sx.I 0]; Sx.L [Sx.I 1; Sx.I (-1)]; Sx.L []; Sx.L []];
-     Sx.L [Sx.I 3; Sx.I 1; Sx.I 8]] = Sx.L [Sx.I 1; Sx.I 1; Sx.I 2] /\
-  ParseTreesRun.rank_verdict [Sx.L [Sx.I 0; Sx.L [Sx.I 0]; Sx.L []; Sx.L []]] = Sx.L [Sx.I 0; Sx.I 1; Sx.I 0].
+     Sx.L [Sx.I 3; Sx.I 1; Sx.I 8]] = Sx.L [Sx.I 1; Sx.I 1; Sx.I 2; Sx.I 1] /\
+  ParseTreesRun.rank_verdict [Sx.L [Sx.I 0; Sx.L [Sx.I 0]; Sx.L []; Sx.L []]] = Sx.L [Sx.I 0; Sx.I 1; Sx.I 0; Sx.I 1].
 Proof. split; vm_compute; reflexivity. Qed.
 
 (* non-vacuity: the specification  0 -> 1 + 2,  2 -> 3 x 0,  1 and 3 atoms  (words over one letter,
@@ -1531,6 +1531,183 @@ Example C07_path_contract_values :
   compose_maps (map st_map bw_cpath) [5] = [5].
 Proof. vm_compute. repeat split; reflexivity. Qed.
 
+
+(* ---------------------------------------------------------------- ONE-FACTOR PRODUCTS (fix 25e10f1)
+   A CartesianProduct rule with a single factor - which the searcher uses as an equivalence step of
+   EquivalencePathRules, forwards and through ReverseRule - satisfies product_contract c [k] [m]; the theorems about
+   unary steps above (C07_roundtrip_plain_single, C07_reverse_single_contract, cchain / C07_path_contract) are stated
+   over union_contract c [k] [m].  The two coincide (Count/ObjectsOneFactor.v): the tuple with the one part is
+   slot 1 0 y, "sizes add up" is "size kept", and CartesianProduct._new_param with one child is the child's map. *)
+From CSS Require Count.ObjectsOneFactor Count.ParseTreesStats Count.ParseTreesStatsProofs Count.ParseTreesExampleParams.
+Section OneFactorProduct.
+Context {obj : Type}.
+Variable size : obj -> Z.
+Variable In_cls : nat -> obj -> Prop.
+Variable par : nat -> obj -> params.
+
+Theorem C07_one_factor_product_is_union_step : forall c k (m : pmap) fwd bwd,
+  product_contract size In_cls par c [k] [m] fwd bwd -> union_contract size In_cls par c [k] [m] fwd bwd.
+Proof. intros. apply ObjectsOneFactor.product1_union_contract. assumption. Qed.
+
+(* ... with the parameter maps given as any list of length 1 (the form named in CLAUSES.md; for a list of another
+   length the implication is false: new_param [] [p] = [] but nth 0 [] id p = p) *)
+Theorem C07_one_factor_product_is_union_step_maps : forall c k (maps : list pmap) fwd bwd,
+  length maps = 1%nat ->
+  product_contract size In_cls par c [k] maps fwd bwd -> union_contract size In_cls par c [k] maps fwd bwd.
+Proof. intros. apply ObjectsOneFactor.product1_union_contract_maps; assumption. Qed.
+
+(* nothing is lost: a unary union step is a one-factor product step *)
+Theorem C07_union_step_is_one_factor_product : forall c k (m : pmap) fwd bwd,
+  union_contract size In_cls par c [k] [m] fwd bwd -> product_contract size In_cls par c [k] [m] fwd bwd.
+Proof. intros. apply ObjectsOneFactor.union1_product_contract. assumption. Qed.
+
+(* consumers: the step of a path, the reversed step, the round trip *)
+Theorem C07_one_factor_product_path_step : forall A B C (m : pmap) fwd bwd rest,
+  product_contract size In_cls par A [B] [m] fwd bwd ->
+  cchain size In_cls par B rest C ->
+  cchain size In_cls par A ((fun o => Some (fwd o), fun t => Some (bwd t), m) :: rest) C.
+Proof. intros A B C m fwd bwd rest H1 H2. exact (ObjectsOneFactor.product1_cchain_step size In_cls par A B C m fwd bwd rest H1 H2). Qed.
+
+Theorem C07_one_factor_product_reverse_contract : forall c k (m m' : pmap) fwd bwd,
+  product_contract size In_cls par c [k] [m] fwd bwd ->
+  (forall y, In_cls k y -> m' (m (par k y)) = par k y) ->
+  union_contract size In_cls par k [c] [m']
+    (tot_fwd (rev_forward (fun t => Some (bwd t)) 0 1 true))
+    (tot_bwd (rev_backward (fun o => Some (fwd o)) 0 true)).
+Proof. intros. eapply ObjectsOneFactor.product1_reverse_single_contract; eassumption. Qed.
+
+Theorem C07_one_factor_product_roundtrip : forall c k (m : pmap) fwd bwd,
+  product_contract size In_cls par c [k] [m] fwd bwd ->
+  link In_cls c k (fun o => Some (fwd o)) (fun t => Some (bwd t)).
+Proof. intros. eapply ObjectsOneFactor.product1_link; eassumption. Qed.
+End OneFactorProduct.
+
+(* ---------------------------------------------------------------- SIZE AND PARAMETERS OF A PARSE TREE, EXECUTED
+   tsz / tpr of C07_objects_are_parse_trees are computed from the Section variables size / par at the leaves.  The
+   extracted run (query kind 7 of run_c07p) executes Count/ParseTreesStats.v tszd / tprd, which read the leaf data
+   from tables (asz c, apar c: the descriptor [3, m, o, params] of a one-object verification rule - AtomStrategy or
+   an atom with parameters).  With truthful tables (leaf_data) they ARE tsz / tpr, and for every object o of a class c
+   whose parse answers t:  tszd t = size o, tprd t = par c o  - the two values the oracle compares with len(o) and
+   cls.get_parameters(o) on every real object asked. *)
+Section ParseTreeStats.
+Context {obj : Type}.
+Variable size : obj -> Z.
+Variable In_cls : nat -> obj -> Prop.
+Variable par : nat -> obj -> params.
+Variable spec : nat -> option (rule obj).
+Variable atom : nat -> option obj.
+Variable fwd : nat -> obj -> subobj obj.
+Variable asz : nat -> Z.
+Variable apar : nat -> params.
+Hypothesis leaves : ParseTreesStatsProofs.leaf_data size par atom asz apar.
+
+Theorem C07_tree_stats_are_tsz_tpr : forall t,
+  tsz size atom t = ParseTreesStats.tszd asz t /\ tpr par spec atom t = ParseTreesStats.tprd spec apar t.
+Proof. intros t. split; [eapply ParseTreesStatsProofs.tsz_tszd|eapply ParseTreesStatsProofs.tpr_tprd]; exact leaves. Qed.
+
+Hypothesis contracts : forall c, node_ok size In_cls par spec atom fwd c.
+
+Theorem C07_parse_stats : forall f c o t,
+  In_cls c o -> parse spec atom fwd f c o = Some t ->
+  ParseTreesStats.tszd asz t = size o /\ ParseTreesStats.tprd spec apar t = par c o.
+Proof. intros. eapply ParseTreesStatsProofs.parse_stats; eassumption. Qed.
+
+Theorem C07_unparse_stats : forall t c, twf spec atom t c ->
+  exists o, unparse spec atom t = Some o /\ In_cls c o /\
+            size o = ParseTreesStats.tszd asz t /\ par c o = ParseTreesStats.tprd spec apar t.
+Proof. intros. eapply ParseTreesStatsProofs.unparse_stats; eassumption. Qed.
+End ParseTreeStats.
+
+(* the 4th field of the verdict of run_c07d: every verified class of the decoded specification holds the one object
+   of its descriptor under the declared size and parameters, or nothing (the decidable part of node_ok at the leaves;
+   that the class HAS exactly this object is the contract of the verification strategy) *)
+Theorem C07_leaves_decided : forall descs, ParseTreesStats.leavesb descs = true -> forall c tbl,
+  ObjectsRun.spec_of (map ObjectsRun.dec_rule descs) c = Some (RVerified tbl) ->
+  match ParseTreesRun.atom_run descs c with
+  | Some a => forall n, tbl n = if n =? ParseTreesStats.asz_of_descs descs c
+                                then [(ParseTreesStats.apar_of_descs descs c, [a])] else []
+  | None => forall n, tbl n = []
+  end.
+Proof. exact ParseTreesStatsProofs.leavesb_sound. Qed.
+
+(* the run's tables are truthful when the descriptors' sizes and parameters are those of the atoms (the oracle
+   checks m = len(o), params = cls.get_parameters(o) for every such descriptor) *)
+Theorem C07_leaf_data_run : forall (size : Z -> Z) (par : nat -> Z -> params) descs,
+  (forall c d, nth_error descs c = Some d -> ParseTreesStats.desc_kind d = 3 ->
+     size (Sx.sx_Z (Sx.sx_nth d 2)) = Sx.sx_Z (Sx.sx_nth d 1) /\
+     par c (Sx.sx_Z (Sx.sx_nth d 2)) = Sx.sx_Zs (Sx.sx_nth d 3)) ->
+  ParseTreesStatsProofs.leaf_data size par (ParseTreesRun.atom_run descs)
+    (ParseTreesStats.asz_of_descs descs) (ParseTreesStats.apar_of_descs descs).
+Proof. exact ParseTreesStatsProofs.leaf_data_run. Qed.
+
+(* ---- applied *)
+(* the one-child rule 7 -> [0] of the binary-word universe, declared as a one-factor product *)
+Lemma bw_product1_contract : product_contract bw_size bw_in bw_par 7%nat [0%nat] [pid] bw_fwd7 bw_bwd7.
+Proof. exact (C07_union_step_is_one_factor_product bw_size bw_in bw_par 7%nat 0%nat pid bw_fwd7 bw_bwd7 bw_single_contract). Qed.
+Example C07_one_factor_product_is_union_step_nonvacuous :
+  union_contract bw_size bw_in bw_par 7%nat [0%nat] [pid] bw_fwd7 bw_bwd7.
+Proof. exact (C07_one_factor_product_is_union_step bw_size bw_in bw_par 7%nat 0%nat pid bw_fwd7 bw_bwd7 bw_product1_contract). Qed.
+(* a path [one-factor product 7 -> 0] and its contract through C07_path_contract *)
+Example C07_one_factor_product_path_nonvacuous :
+  union_contract bw_size bw_in bw_par 7%nat [0%nat]
+    [compose_maps (map st_map [((fun o => Some (bw_fwd7 o)), (fun t => Some (bw_bwd7 t)), pid)])]
+    (tot_fwd (path_forward (map st_fwd [((fun o => Some (bw_fwd7 o)), (fun t => Some (bw_bwd7 t)), pid)])))
+    (tot_bwd (path_backward (map st_bwd [((fun o => Some (bw_fwd7 o)), (fun t => Some (bw_bwd7 t)), pid)]))).
+Proof.
+  apply C07_path_contract.
+  apply (C07_one_factor_product_path_step bw_size bw_in bw_par 7%nat 0%nat 0%nat pid bw_fwd7 bw_bwd7 []
+           bw_product1_contract). apply cchain_nil.
+Qed.
+(* the reverse of the one-factor product 7 -> [0] *)
+Example C07_one_factor_product_reverse_nonvacuous :
+  union_contract bw_size bw_in bw_par 0%nat [7%nat] [pid]
+    (tot_fwd (rev_forward (fun t => Some (bw_bwd7 t)) 0 1 true))
+    (tot_bwd (rev_backward (fun o => Some (bw_fwd7 o)) 0 true)).
+Proof.
+  apply (C07_one_factor_product_reverse_contract bw_size bw_in bw_par 7%nat 0%nat pid pid bw_fwd7 bw_bwd7
+           bw_product1_contract). intros y _. reflexivity.
+Qed.
+Example C07_one_factor_product_roundtrip_nonvacuous :
+  link bw_in 7%nat 0%nat (fun o => Some (bw_fwd7 o)) (fun t => Some (bw_bwd7 t)).
+Proof. exact (C07_one_factor_product_roundtrip bw_size bw_in bw_par 7%nat 0%nat pid bw_fwd7 bw_bwd7 bw_product1_contract). Qed.
+
+(* parse-tree statistics on the words over {a, b} with the statistic "number of a's" (Count/ParseTreesExampleParams.v:
+   0 = eps + a.0 + b.0, atoms 1 = eps, 3 = a, 5 = b) *)
+Definition wabk_asz (c : nat) : Z := match c with 3%nat => 1 | 5%nat => 1 | _ => 0 end.
+Definition wabk_apar (c : nat) : params := match c with 1%nat => [0] | 3%nat => [1] | 5%nat => [0] | _ => [] end.
+Lemma wabk_leaf_data :
+  ParseTreesStatsProofs.leaf_data ParseTreesExample.wab_size ParseTreesExampleParams.wabk_par ParseTreesExample.wab_atomo
+    wabk_asz wabk_apar.
+Proof. intros c. destruct c as [|[|[|[|[|[|c]]]]]]; simpl; split; reflexivity. Qed.
+Example C07_parse_stats_nonvacuous : forall f o t,
+  ParseTreesExample.wab_in 0%nat o ->
+  parse ParseTreesExampleParams.wabk_spec ParseTreesExample.wab_atomo ParseTreesExample.wab_fwd f 0%nat o = Some t ->
+  ParseTreesStats.tszd wabk_asz t = ParseTreesExample.wab_size o /\
+  ParseTreesStats.tprd ParseTreesExampleParams.wabk_spec wabk_apar t = ParseTreesExampleParams.wabk_par 0%nat o.
+Proof.
+  intros f o t. apply (C07_parse_stats ParseTreesExample.wab_size ParseTreesExample.wab_in ParseTreesExampleParams.wabk_par
+                         ParseTreesExampleParams.wabk_spec ParseTreesExample.wab_atomo ParseTreesExample.wab_fwd
+                         wabk_asz wabk_apar wabk_leaf_data ParseTreesExampleParams.wabk_node_ok).
+Qed.
+(* ... on the word ab: the tree has size 2 and parameter tuple [1] *)
+Example C07_parse_stats_values :
+  exists t, parse ParseTreesExampleParams.wabk_spec ParseTreesExample.wab_atomo ParseTreesExample.wab_fwd 10 0%nat [false; true] = Some t /\
+            ParseTreesStats.tszd wabk_asz t = 2 /\
+            ParseTreesStats.tprd ParseTreesExampleParams.wabk_spec wabk_apar t = [1].
+Proof. eexists. split; [vm_compute; reflexivity|]. split; vm_compute; reflexivity. Qed.
+(* the run: an atom with parameters as a leaf ([3, m, o, params]), a one-factor product over it; query 7 *)
+Example C07_run_stats_values :
+  ParseTreesRun.run_c07d
+    (Sx.L [Sx.L [Sx.L [Sx.I 1; Sx.L [Sx.I 1]; Sx.L [Sx.I 1]; Sx.L [Sx.I 1];
+                       Sx.L [Sx.L [Sx.I 0; Sx.L [Sx.L [Sx.I 0]]; Sx.I 1]];
+                       Sx.L [Sx.I 0; Sx.L [Sx.L [Sx.I 8; Sx.L [Sx.I 7]]]; Sx.L [Sx.L [Sx.L [Sx.I 7]; Sx.L [Sx.I 8]]]]];
+                 Sx.L [Sx.I 3; Sx.I 1; Sx.I 7; Sx.L [Sx.I 4]]];
+           Sx.L [Sx.L [Sx.I 7; Sx.I 0; Sx.I 8]; Sx.L [Sx.I 0; Sx.I 0; Sx.I 1]]])
+  = Sx.L [Sx.L [Sx.I 1; Sx.L [Sx.I 4]];
+          Sx.L [Sx.L [Sx.L [Sx.I 4]; Sx.L [Sx.I 8]]];
+          Sx.L [Sx.I 1; Sx.I 1; Sx.I 1; Sx.I 1]].
+Proof. vm_compute. reflexivity. Qed.
+
 Print Assumptions C07_union_sub_objects.
 Print Assumptions C07_product_sub_objects.
 Print Assumptions C07_union_level.
@@ -1571,3 +1748,15 @@ Print Assumptions C07_closed_decided.
 Print Assumptions C07_generate_exact_decided.
 Print Assumptions C07_path_contract.
 Print Assumptions C07_nonvacuous.
+Print Assumptions C07_one_factor_product_is_union_step.
+Print Assumptions C07_one_factor_product_is_union_step_maps.
+Print Assumptions C07_union_step_is_one_factor_product.
+Print Assumptions C07_one_factor_product_path_step.
+Print Assumptions C07_one_factor_product_reverse_contract.
+Print Assumptions C07_one_factor_product_roundtrip.
+Print Assumptions C07_tree_stats_are_tsz_tpr.
+Print Assumptions C07_parse_stats.
+Print Assumptions C07_unparse_stats.
+Print Assumptions C07_leaves_decided.
+Print Assumptions C07_leaf_data_run.
+Print Assumptions C07_parse_stats_nonvacuous.
